@@ -477,6 +477,9 @@ class Executor:
         self.called = set()
         self.llvm = None
         self.sched = None
+        self.diff_budget = 0       # number of discharged assertion queries of this case still to be written out for the solver cross-check
+        self.diff_dir = None
+        self.diff_files = []
         from . import gostubs
         gostubs.install(self)
 
@@ -1662,6 +1665,32 @@ class Executor:
             pass
         return self.model_tape(m)
 
+    def dump_for_diff(self, c, msg):
+        """write the discharged query (path condition + negated assertion, expected unsat) as SMT-LIB2 for the
+        cross-check with other solvers; a pseudo-random sample per case, bounded in size"""
+        import hashlib, random as _r
+        k = self.stats.assert_queries
+        if self.diff_files and _r.Random(self.seed * 7919 + k).random() > 0.08:
+            return      # the first discharged query of a case is always written, later ones are sampled
+        try:
+            s2 = z3.Solver()
+            for a in self.solver.assertions():
+                s2.add(a)
+            s2.add(z3.Not(c))
+            txt = s2.to_smt2()
+        except Exception:
+            return
+        if len(txt) > 3000000:
+            return
+        self.diff_budget -= 1
+        name = hashlib.md5((msg + str(k)).encode()).hexdigest()[:10]
+        path = os.path.join(self.diff_dir, name + '.smt2')
+        with open(path, 'w') as f:
+            f.write('; expected: unsat ; %s\n' % msg.replace('\n', ' '))
+            f.write('(set-logic ALL)\n')
+            f.write(txt)
+        self.diff_files.append(path)
+
     def diversify(self, m, extra=()):
         """counterexample models: prefer pseudo-random non-zero values for the inputs the violation does not
         depend on (z3 assigns 0 to everything it may, and all-zero inputs often hide a defect natively:
@@ -1716,6 +1745,8 @@ class Executor:
                 return   # path infeasible after all
             raise PathEnd('assert_fail', {'msg': msg, 'model': vals})
         r = self.check(z3.Not(c))
+        if r == z3.unsat and self.diff_budget > 0:
+            self.dump_for_diff(c, msg)
         if r == z3.sat:
             m = self.solver.model()
             # model refiners (e.g. the algebraic model) try to find a counterexample that does not depend
